@@ -1253,8 +1253,11 @@ impl SparqlDatabase {
         } else if term.starts_with('<') && term.ends_with('>') {
             term[1..term.len() - 1].to_string()
         } else if term.starts_with('"') {
+            // Same treatment of what follows the closing quote as `clean_ntriples_term`:
+            // a datatype is dropped, a language tag stays attached to the value.
             match decode_ntriples_literal(term) {
-                Some((value, rest)) if rest.is_empty() => value,
+                Some((value, rest)) if rest.is_empty() || rest.starts_with("^^") => value,
+                Some((value, rest)) if rest.starts_with('@') => format!("{value}{rest}"),
                 _ => term.trim_matches('"').to_string(),
             }
         } else {
